@@ -80,10 +80,9 @@ def judge(data, col, meta=None):
 
 def body(case, col):
     data, meta = case
-    if data is None:
-        col.count("discarded_unserialisable")
-        col.count("discarded:" + meta.get("discarded", "?"))
-        return
+    if "discarded" in meta:
+        col.count("field_mutant_unserialisable")
+        col.count("field_mutant_unserialisable:" + meta["discarded"])
     outcome, nt = judge(data, col, meta)
     col.case(key=data, nontrivial=nt and outcome != "out_of_scope",
              labels=("mode:" + meta["mode"], outcome),
